@@ -31,6 +31,8 @@ pub const BIG_CASES: &[&str] = &[
     "boxed_zip_u32_4MiB",
     "try_from_vec_u32_4MiB",
     "boxed_into_iter_roundtrip_u32_4MiB",
+    "box_arr_repeat_expr_u64_8MiB",
+    "box_arr_repeat_u8x16_4MiB",
 ];
 /// not a check: demonstrates that the small stack really cannot hold the array
 pub const BIG_PROBE: &str = "probe_stack_default_u32_4MiB";
@@ -130,6 +132,16 @@ fn big_boxed_into_iter_roundtrip() -> bool {
     c.iter().enumerate().all(|(i, &x)| x == (1u32 << 20) - 1 - i as u32)
 }
 #[inline(never)]
+fn big_box_arr_repeat_expr() -> bool {
+    let b = box_arr![7u64; 1048576];
+    b.len() == 1 << 20 && b.iter().all(|&x| x == 7)
+}
+#[inline(never)]
+fn big_box_arr_repeat_u8x16() -> bool {
+    let b = box_arr![[3u8; 16]; BigM];
+    b.len() == 1 << 18 && b.iter().all(|x| *x == [3u8; 16])
+}
+#[inline(never)]
 fn big_probe_stack_default_u32() -> bool {
     let a = std::hint::black_box(GenericArray::<u32, BigN>::default());
     a.iter().all(|&x| x == 0)
@@ -152,6 +164,8 @@ pub fn bigstack_child(case: &str) -> i32 {
         "boxed_zip_u32_4MiB" => big_boxed_zip,
         "try_from_vec_u32_4MiB" => big_try_from_vec,
         "boxed_into_iter_roundtrip_u32_4MiB" => big_boxed_into_iter_roundtrip,
+        "box_arr_repeat_expr_u64_8MiB" => big_box_arr_repeat_expr,
+        "box_arr_repeat_u8x16_4MiB" => big_box_arr_repeat_u8x16,
         "probe_stack_default_u32_4MiB" => big_probe_stack_default_u32,
         _ => return 2,
     };
